@@ -93,6 +93,12 @@ Theorem C16_feedback_value : forall ps c, disciplined ps = true -> forall ws sch
 Proof. exact feedback_value. Qed.
 Print Assumptions C16_feedback_value.
 
+Theorem C16_no_deadlock : forall ps c, disciplined ps = true -> forall ws sched,
+  let st := run ps c (init_state c ws) sched in
+  finished (snd st) = false -> exists t, step1 ps c (fst st) (snd st) t <> None.
+Proof. exact no_deadlock. Qed.
+Print Assumptions C16_no_deadlock.
+
 (* re-checked on every run against the programs regenerated from the current source *)
 Theorem C16_instance : disciplined Gen.SchedProg.progs = true.
 Proof. exact instance_disciplined. Qed.
